@@ -153,6 +153,7 @@ def run_rule(run, p, pid):
         cases = cases + [('five-layouts', ['ab-1', 'xyy', '3.21', 'Q_a', '(5)'], 'tiny-size', {'#small-size': (1, 1), 'seed': 3}),
                          ('five-layouts', ['ab-1', 'xyy', '3.21', 'Q_a', '(5)'], 'tiny-size-other-seed', {'#small-size': (1, 1), 'seed': 8}),
                          ('five-layouts', ['ab-1', 'xyy', '3.21', 'Q_a', '(5)'], 'zero-exceptions-size', {'#small-size': (2, 0), 'seed': 1}),
+                         ('five-layouts', ['ab-1', 'xyy', '3.21', 'Q_a', '(5)'], 'no-initial-sample', {'#small-size': (0, 2), 'seed': 5}),
                          ('optional-tail', ['ab12', 'cd'], 'variable-length', {'variableLengthFrags': True}),
                          ('optional-tail-letters', ['abcc', 'ab', 'zz'], 'variable-length', {'variableLengthFrags': True})]
     run.rule(rid, texts[pid] % len(cases))
@@ -226,7 +227,9 @@ def run_rule(run, p, pid):
         else:
             opts = {k: v for k, v in opts.items() if not k.startswith('#')}
             variants = [('reversed', list(reversed(examples))), ('rotated', examples[1:] + examples[:1]),
-                        ('as a dictionary', dict(collections.Counter(examples)))]
+                        ('as a dictionary', dict(collections.Counter(examples))),
+                        # a string supplied zero times is not an example
+                        ('as a dictionary with zero-count entries', dict(collections.Counter(examples), **{'n/a': 0, 'unknown!': 0}))]
             for seed in ((7, 11) if 'size' in opts else (None, 7)):          # sampling without a seed is random by design
                 kw = dict(opts)
                 if seed is not None:
@@ -244,3 +247,49 @@ def run_rule(run, p, pid):
                         break
         run.ob(rid, key, not probs, '%s, %s: %s' % (name, oname, '; '.join(probs[:2]) or '%d expression(s) %s' % (len(res), res[:3])), fn=f)
     run.floor(rid, n, 12)
+
+
+def hook_rule(run, p, pid):
+    """the hooks through which constraint discovery asks rexpy for a column's expressions: whatever they hand to rexpy, every value
+    of the column - the empty string included - must be matched by one of the expressions that come back, because verification
+    matches every non-null value"""
+    from ..pyeval import Obj
+    rid = pid + '-REXHOOK'
+    sets = [('codes-and-an-empty-string', ['ab-1', '', 'cd-22', 'ef-333']), ('blank-and-empty', ['', ' ', 'x']), ('plain', ['aa', 'bb', 'cc']),
+            ('one-empty-string', [''])]
+    run.rule(rid, 'the calculators\' find_rexes(colname, values=...), evaluated on %d value lists (with empty and blank strings): every value '
+                  'handed in is matched in full by one of the expressions returned, so the rex constraint discovered for a column holds for '
+                  'that column' % len(sets))
+    n = 0
+    for cname in ('PandasConstraintCalculator', 'DatabaseConstraintCalculator'):
+        try:
+            c = p.cls(cname)
+        except AnalysisError:
+            continue
+        f = p.lookup_method(c.qn, 'find_rexes')
+        if f is None:
+            raise AnalysisError('%s.find_rexes vanished' % cname)
+        for name, values in sets:
+            I = _interp(p)
+            o = Obj(c)
+            o.attrs.update(df=None, tablename='t')
+            try:
+                res = I.call(f, ['col'], {'values': list(values)}, selfobj=o)
+                err = None
+            except Raised as e:
+                res, err = None, 'raises %s' % e
+            except Unsupported as e:
+                raise AnalysisError('%s.find_rexes is not evaluable: %s' % (cname, e))
+            n += 1
+            bad = None
+            if res is None:
+                bad = err or 'returns None'
+            else:
+                comp = [re.compile(r, re.UNICODE | re.DOTALL) for r in res]
+                for v in values:
+                    if not any(c_.fullmatch(v) or (c_.match(v) and c_.match(v).end() == len(v)) for c_ in comp):
+                        bad = '%r is matched by none of %s' % (v, list(res))
+                        break
+            run.ob(rid, '%s::%s::%s' % (f.rel, f.short, name), bad is None,
+                   '%s on %s: %s' % (f.short, name, bad or '%d expression(s) match every value' % len(res)), fn=f)
+    run.floor(rid, n, 4)
